@@ -664,9 +664,11 @@ pub fn run(args: &Args) {
     rep.assume("binding property only, for DefaultEngine with DefaultCipherSuite and deterministic keys; nothing cryptographic is claimed");
     rep.assume("AEAD- and MAC-kind keys have no key type in the repository; the harness declares one each through the public `unwrapped!` macro");
     rep.assume("unwrapping as another key type of the same algorithm kind, and a trailing byte after the encoding, are not covered by the statement: recorded as outcome classes only");
-    for c in ["accepted_untouched", "roundtrips_ok", "behaviour_crosschecks_ok", "behaviour_crosscheck_distinguishes_other_key", "rejected_by_auth", "tampered_cases", "other_kind_cases", "second_engine_cases", "kind_retag_cross_type_cases"] {
-        rep.require_nonzero(c);
-    }
+    guards(
+        &mut rep,
+        &["wrapped_keys", "tampered_cases", "other_kind_cases", "second_engine_cases", "kind_retag_cross_type_cases"],
+        &["accepted_untouched", "roundtrips_ok", "behaviour_crosschecks_ok", "behaviour_crosscheck_distinguishes_other_key", "rejected_by_auth"],
+    );
     rep.finish()
 }
 
